@@ -1,6 +1,7 @@
 import Driver.Par
 import Driver.Collider
 import Driver.EarClip
+import Driver.Mesh
 /-! `mvdriver`: reads one request per line on stdin, prints one answer per line.
 First token = engine. -/
 
@@ -9,6 +10,7 @@ def dispatch (line : String) : String :=
   | "par" :: rest => ParDrv.handle rest
   | "collider" :: rest => Collider.handle rest
   | "earclip" :: rest => EarClip.handle rest
+  | "mesh" :: rest => Mesh.handle rest
   | _ => "bad-engine"
 
 partial def loop (h : IO.FS.Stream) (out : IO.FS.Stream) : IO Unit := do
